@@ -147,6 +147,9 @@ def detectencoding_str(input, final=False):
     # if this is the last call, and we haven't determined an encoding yet,
     # we default to UTF-8
     if final:
+        if candidates & CANDIDATE_UTF_16_AS_LE and 2 <= li < 4:
+            # xFF xFE and no room left for the two x00 of the UTF-32 BOM
+            return ("utf-16", True)
         return ("utf-8", False)
     return (None, False)  # dont' know yet
 
